@@ -145,6 +145,19 @@ def praj_curve(o):
         pr = o.run1(lambda: call(o, wc, 'calc_P_RAJ', SV(N, kind=kind)), label=f'calc_P_RAJ[{kind}]')
         o.prove(f'calc_P_RAJ == P_Z N^d below N_D, P_D at and above [{kind}]', z3.And(z3.Implies(N < ND.t, pr.t == JZ * pw(N, d)), z3.Implies(N >= ND.t, pr.t == JD)))
         o.prove(f'calc_P_RAJ continuous at N_D [{kind}]', z3.Implies(N == ND.t, JZ * pw(N, d) == JD))
+    # the optional endurance value (the damage calculator evaluates the curve against the endurance value reduced by the damage so far) and the stored, updated one
+    # (added after seed C09-d made calc_N ignore the argument)
+    PDx, PDu = o.reals('P_RAJ_D_given P_RAJ_D_updated')
+    o.assume(PDx > 0, PDu > 0)
+    for kind in KINDS:
+        n = o.run1(lambda: call(o, wc, 'calc_N', SV(P, kind=kind), P_RAJ_D=SV(PDx)), label=f'calc_N(P, P_RAJ_D)[{kind}]')
+        o.prove(f'calc_N(P, P_RAJ_D=x) infinite iff P <= x, the curve value above [{kind}]', z3.And(n.P() == (P <= PDx), z3.Implies(P > PDx, n.t == pw(P / JZ, 1 / d))))
+    wc2 = o.new(WF + 'WoehlerCurvePRAJ', o.rec('series', P_RAJ_Z=SV(JZ), P_RAJ_D_0=SV(JD), d_RAJ=SV(d)))
+    o.run1(lambda: call(o, wc2, 'update_P_RAJ_D', SV(PDu)), label='update_P_RAJ_D')
+    n = o.run1(lambda: call(o, wc2, 'calc_N', SV(P, kind='ndarray')), label='calc_N after update')
+    o.prove('after update_P_RAJ_D(u): calc_N(P) infinite iff P <= u', n.P() == (P <= PDu))
+    n = o.run1(lambda: call(o, wc2, 'calc_N', SV(P, kind='ndarray'), P_RAJ_D=SV(PDx)), label='calc_N(P, P_RAJ_D) after update')
+    o.prove('after update_P_RAJ_D(u): calc_N(P, P_RAJ_D=x) still decides by x', n.P() == (P <= PDx))
     n = o.run1(lambda: call(o, wc, 'calc_N', SV(P, kind='ndarray')), label='calc_N')
     n2 = o.run1(lambda: call(o, wc, 'calc_N', SV(P2, kind='ndarray')), label='calc_N(P2)')
     o.prove('calc_N strictly decreasing on the finite range', z3.Implies(z3.And(P > JD, P < P2), n2.t < n.t))
